@@ -121,6 +121,10 @@ func runCheck(id, tier string, writeBaseline bool) int {
 		if fsp.Ext || !hasProp(fsp.Props, id) {
 			continue
 		}
+		if fsp.Trusted || fsp.Iface {
+			pkgSet[pkgOfKey(fsp.Key, specs)] = true
+			continue
+		}
 		fspecs = append(fspecs, fsp)
 		pkgSet[pkgOfKey(fsp.Key, specs)] = true
 	}
